@@ -46,15 +46,34 @@ EXTRA_TPL = {
 }
 
 _pool_cache = {}
+_INFO = {}
 
 
-def universe(cpu):
+def universe(cpu, worker=None, info=None):
+    """instruction texts: hand-written forms + the comparison corpus; with a worker also one accepted rendering of the
+    disassembler per mnemonic and operand shape (forms and CPUs the corpus does not have)"""
     seen = set()
     out = []
-    for t in EXTRA_TPL.get(cpu, []) + progs.comparison_lines(cpu):
+    for t in EXTRA_TPL.get(cpu, []) + (progs.comparison_lines(cpu) if cpu in progs.CPU_FILES else []):
         if t not in seen:
             seen.add(t)
             out.append(t)
+    if worker is not None and cpu not in ("tms1000", "tms1100"):
+        # (tms1000/tms1100: the program counter is not linear - chapters/pages and an LFSR order -, so a label operand
+        # inside their 4-bit constant instructions says nothing about placement; only their corpus forms are used)
+        import c06
+        ci = (info or {}).get(progs.CPU_FILES.get(cpu, cpu), dict(unit=1, align=1))
+        shapes = set(re.sub(r"[A-Za-z$%]+[0-9]+", "R", NUM.sub("N", t)) for t in out)
+        extra = 0
+        for t in c06.rendering_texts(worker, cpu, ci["unit"], ci["align"]):
+            k = re.sub(r"[A-Za-z$%]+[0-9]+", "R", NUM.sub("N", t))
+            if k in shapes or not NUM.search(t):
+                continue
+            shapes.add(k)
+            out.append(t)
+            extra += 1
+            if extra >= 120:
+                break
     return out
 
 
@@ -64,7 +83,7 @@ def analyse(worker, cpu, known_bad):
         return _pool_cache[cpu]
     out = []
     directive = progs.CPU_FILES.get(cpu, cpu)
-    for t in universe(cpu):
+    for t in universe(cpu, worker, _INFO):
         holes = [m.span(1) if m.group(1) else m.span(2) for m in NUM.finditer(t)]
         for hi, span in enumerate(holes[:2]):
             lens = {}
@@ -110,10 +129,9 @@ def variants(cpu, tpl):
 
 @st.composite
 def program(draw, pools):
-    cpu = draw(st.sampled_from(sorted(pools)))
+    # CPUs whose every template is a listed open finding are not generated (excluded by construction)
+    cpu = draw(st.sampled_from(sorted(c for c in pools if any(not p[5] for p in pools[c]))))
     pool = [p for p in pools[cpu] if not p[5]]
-    if not pool:
-        pool = pools[cpu]
     var = [p for p in pool if p[3]]
     nlab = draw(st.integers(2, 8))
     ninstr = draw(st.integers(1, 8))
@@ -266,7 +284,10 @@ def run(tier, seed, shard, nshards):
     w = Worker("c02")
     ck = Checker(s, w)
     kb = known_bad_set()
-    mine = [c for i, c in enumerate(CPUS) if i % nshards == shard]
+    _INFO.update({c["name"]: c for c in w.cpus()})
+    rev = set(progs.CPU_FILES.values())
+    allc = list(CPUS) + sorted(n for n in _INFO if n not in rev and n not in progs.CPU_FILES and n not in ("ps2_ee_vu0", "ps2_ee_vu1"))
+    mine = [c for i, c in enumerate(allc) if i % nshards == shard]
     pools = {}
     for c in mine:
         p = analyse(w, c, kb.get(c, []))
